@@ -183,3 +183,11 @@ Proof. exact BatchMatcher.batch_reject_genuine. Qed.
 
 Print Assumptions C11_matcher_sound.
 Print Assumptions C11_matcher_rejections_genuine.
+
+(* Tie to the source: the Go functions the model transcribes still contain exactly the synchronisation operations
+   (select arms, channel operations, goroutine starts, timer/context/sync calls) the model accounts for.
+   Generated/Census.v is re-extracted from the Go source on every run (tools/gofacts/census.go). *)
+From Juniper Require Translated.CensusC11.
+Theorem C11_source_census : Translated.CensusC11.census_expected_C11.
+Proof. exact Translated.CensusC11.census_C11_ok. Qed.
+Print Assumptions C11_source_census.
